@@ -71,6 +71,12 @@ void h_column_dfs(void) {
   in_Glu.xsup = in_xsup; in_Glu.xsup_end = in_xsup_end; in_Glu.supno = in_supno; in_Glu.lsub = in_lsub; in_Glu.xlsub = in_xlsub; in_Glu.xlsub_end = in_xlsub_end;
   in_Glu.nzlmax = LC; in_Glu.dynamic_snode_bound = in_dyn ? YES : NO;
 
+  /* variants split the runs by the number DEPTH = jcol - fstcol of finished panel columns the dfs can visit (bounds of the dfs loops differ) */
+#if DEPTH == 0
+  in_fstcol = in_jcol;
+#else
+  __CPROVER_assume(in_jcol - in_fstcol == DEPTH || (DEPTH == M - 2 && in_jcol - in_fstcol >= DEPTH));
+#endif
   /* ---------- well-formed pre-state ---------- */
   /* a regular panel never starts at column 0 (SRC/p?gstrf_thread.c: jcolm1 = jcol-1 is read); jcol is a column of the panel starting at fstcol */
   __CPROVER_assume(1 <= in_fstcol && in_fstcol <= in_jcol && in_jcol < M);
@@ -113,7 +119,7 @@ void h_column_dfs(void) {
    * unpivoted when k was finished, i.e. now unpivoted or pivoted at a column >= k; scanned ranges are short (bound of this unit) */
   for (k = 0; k < M; k++) if (in_fstcol <= k && k < in_jcol && in_xsup_end[in_supno[k]] - 1 == k) {
     lo = scan_lo(k); hi = scan_hi(k);
-    __CPROVER_assume(hi - lo <= M);
+    __CPROVER_assume(hi - lo <= M - k);        /* at most n-k rows were unpivoted when column k was finished */
     for (p = 0; p < LC; p++) if (lo <= p && p < hi) __CPROVER_assume(in_perm_r[in_lsub[p]] == EMPTY || in_perm_r[in_lsub[p]] >= k);
   }
   /* segments found by the panel dfs end at representatives before the panel */
@@ -214,16 +220,18 @@ void h_column_dfs(void) {
   }
   /* ---------- canaries ---------- */
   __CPROVER_assert(0, "canary: column_dfs returns");
+#if DEPTH == 0
   if (g_ret != 0) __CPROVER_assert(0, "canary: allocation error returned");
-  if (g_ret == 0 && joined) __CPROVER_assert(0, "canary: jcol joins the supernode of jcol-1");
   if (g_ret == 0 && joined && in_jcol - fs == 2) __CPROVER_assert(0, "canary: third column joins");
-  if (g_ret == 0 && !joined && in_super_bnd[in_jcol] != 0 && in_jcol - fs < MAXSUPER && nested && cnt == len0 - 1) __CPROVER_assert(0, "canary: new supernode only because of super_bnd");
+  if (g_ret == 0 && !joined && in_super_bnd[in_jcol] != 0 && !in_dyn && in_jcol - fs < MAXSUPER && nested && cnt == len0 - 1) __CPROVER_assert(0, "canary: static scheme, new supernode only because of super_bnd");
   if (g_ret == 0 && !joined && in_super_bnd[in_jcol] == 0 && in_jcol - fs >= MAXSUPER && nested && cnt == len0 - 1) __CPROVER_assert(0, "canary: new supernode only because of maxsuper");
   if (g_ret == 0 && !joined && in_super_bnd[in_jcol] == 0 && in_jcol - fs < MAXSUPER && !nested) __CPROVER_assert(0, "canary: new supernode because rows do not nest");
-  if (g_ret == 0 && in_nseg == g_nseg0 + 2) __CPROVER_assert(0, "canary: dfs visits two supernodes");
-  if (g_ret == 0 && in_nseg == g_nseg0 + 2 && in_parent[in_segrep[g_nseg0]] == in_segrep[g_nseg0 + 1]) __CPROVER_assert(0, "canary: dfs of depth two");
+  if (g_ret == 0 && !joined && cnt >= 2 && in_Glu.nextl == LC && in_dyn) __CPROVER_assert(0, "canary: dynamic scheme, L subscript storage exactly filled");
+#elif DEPTH == 1
+  if (g_ret == 0 && joined && in_nseg == g_nseg0 + 1) __CPROVER_assert(0, "canary: jcol joins the supernode of jcol-1 after a dfs");
   if (g_ret == 0 && !joined && cnt == 3 && in_lsub_end == 1) __CPROVER_assert(0, "canary: rows appended by the dfs");
-  if (g_ret == 0 && !joined && cnt >= 1 && in_Glu.nextl == LC) __CPROVER_assert(0, "canary: L subscript storage exactly filled");
-  if (g_ret == 0 && in_dyn) __CPROVER_assert(0, "canary: dynamic scheme");
-  if (g_ret == 0 && !in_dyn && in_super_bnd[in_jcol] != 0) __CPROVER_assert(0, "canary: static scheme, H boundary");
+#else
+  if (g_ret == 0 && in_nseg == g_nseg0 + 2 && in_parent[in_segrep[g_nseg0]] == in_segrep[g_nseg0 + 1]) __CPROVER_assert(0, "canary: dfs of depth two");
+  if (g_ret == 0 && joined && in_nseg == g_nseg0 + 2 && in_parent[in_segrep[g_nseg0]] == EMPTY) __CPROVER_assert(0, "canary: two dfs roots, jcol joins");
+#endif
 }
